@@ -35,7 +35,7 @@ impl Cuboid {
 
     /// Computes a scaled version of this cuboid.
     pub fn scaled(self, scale: &Vector<Real>) -> Self {
-        let new_hext = self.half_extents.component_mul(scale);
+        let new_hext = self.half_extents.component_mul(scale).abs();
         Self {
             half_extents: new_hext,
         }
